@@ -88,6 +88,12 @@ CHECKS = {
    note="Trusted: snapshot/diff, id()-based sharing detector. Solver solution state not compared.",
    technique="runtime taint monitor (whole-state comparison of the untouched side after every step) + identity checker",
    ref="DESIGN.md §4 C12"),
+ "C13": dict(
+   level="fault_enumeration",
+   text="Whole-state comparison around every analysis call (content, bounds, objective and direction, gene states, raw GLPK problem incl. left-over rows/columns, solver configuration and interface) for 41 analyses/argument forms on feasible, infeasible, unbounded, degenerate, empty and objective-less generated models, serial and with 2 processes, outside or inside a user context (whose exit must then restore the entry state); each call is made twice and the uniquely defined quantities compared (ties at thresholds decided exactly); an OptimizeTap asserts the core FBA invariant of C01 at every solve the analyses make.",
+   note="Trusted: snapshot/diff. Big-M analyses (room, MIP minimal medium, gapfill) only on finite bounds (GLPK aborts on infinite coefficients); non-unique outputs not compared; production envelopes on infinite bounds not compared.",
+   technique="runtime before/after whole-state monitor with failure-path workloads + solve-time invariant tap",
+   ref="DESIGN.md §4 C13"),
  "C15": dict(
    level="fault_enumeration",
    text="Reference-model monitor in lock-step with the real DictList: bounded-exhaustive operation sequences (every index in [-n-2,n+1], every slice, every failing argument position) plus seeded random long sequences; coherence, list-semantics equality and unchanged-on-raise judged after every step. Exhaustive within the stated bounds, sampled beyond.",
